@@ -123,7 +123,7 @@ def run(ctx):
     if os.path.isdir(corpus_dir):
         for fn in sorted(os.listdir(corpus_dir)):
             ops = [l.strip() for l in open(os.path.join(corpus_dir, fn)) if l.strip() and not l.startswith("#")]
-            cases += [[o] for o in ops if o.startswith("csvm")]
+            cases += [[o] for o in ops if o.split()[0] in ("csvm", "csvm2", "esvr", "ocsvm")]
     ctx.cov["corpus_cases"] = len(cases)
     for _ in range(nmodel):
         n, d, xs, ys = gen_data(r, ctx.quick)
@@ -133,6 +133,29 @@ def run(ctx):
         maxit = r.choice([100000, 100000, 100000, 3, 17])
         cases.append([f"csvm {bias} {shrink} {tok(C)} {tok(eps)} {maxit} " + data_text(n, d, xs, ys)])
         ctx.hist("n", n); ctx.hist("bias", bias); ctx.hist("shrinking", shrink); ctx.hist("log2C", int(math.log2(C)))
+    # widened model: class-specific C + per-example weights, epsilon-regression, one-class (cold starts)
+    for _ in range(nmodel // 2):
+        n, d, xs, ys = gen_data(r, ctx.quick)
+        shrink = r.below(2)
+        eps = r.choice([1e-3, 2.0 ** -10, 2.0 ** -4, 2.0 ** -16])
+        maxit = r.choice([100000, 100000, 100000, 3, 17])
+        pts = " ".join(tok(v) for x in xs for v in x)
+        kind = r.choice(["csvm2", "csvm2", "esvr", "esvr", "ocsvm"])
+        if kind == "csvm2":
+            bias = r.below(2)
+            Cn, Cp = 2.0 ** r.range(-3, 6), 2.0 ** r.range(-3, 6)
+            ws = [r.choice([1.0, 1.0, 0.5, 2.0, 0.25, 0.0]) if r.chance(1, 2) else 1.0 for _ in range(n)]
+            cases.append([f"csvm2 {bias} {shrink} {tok(Cn)} {tok(Cp)} {tok(eps)} {maxit} {n} {d} {pts} " +
+                          " ".join(str(y) for y in ys) + " " + " ".join(tok(w) for w in ws)])
+        elif kind == "esvr":
+            C = 2.0 ** r.range(-3, 6)
+            tube = r.choice([0.125, 0.5, 1.0, 2.0])
+            lab = [r.range(-10, 10) / 2 for _ in range(n)]
+            cases.append([f"esvr {shrink} {tok(C)} {tok(tube)} {tok(eps)} {maxit} {n} {d} {pts} " + " ".join(tok(v) for v in lab)])
+        else:
+            nu = r.choice([0.25, 0.5, 0.75, 0.125])
+            cases.append([f"ocsvm {shrink} {tok(nu)} {tok(eps)} {maxit} {n} {d} {pts}"])
+        ctx.hist("model_op", kind)
     res = core.run_case(ctx, [exe], [drv], [c[0] for c in cases], timeout=900)
     its = [int(m.group(1)) for l in res.impl for m in [re.search(r"it=(\d+)", l)] if m]
     for it in its:
